@@ -116,9 +116,10 @@ func (cce *staleIfErrorPolicy) CanStaleOnError(
 		if !valid {
 			continue
 		}
-		age := freshness.Age.Value + cce.clock.Since(freshness.Age.Timestamp)
-		// If stale-if-error is set, allow extra staleness
-		if age <= freshness.UsefulLife+dur {
+		age := addDuration(max(freshness.Age.Value, 0), max(cce.clock.Since(freshness.Age.Timestamp), 0))
+		// If stale-if-error is set, allow extra staleness: the response may be
+		// used while it has been stale for less than dur (RFC 5861 §4).
+		if age < addDuration(max(freshness.UsefulLife, 0), dur) {
 			return true
 		}
 	}
